@@ -17,14 +17,13 @@ def handleStore (op : String) (args : List String) : Option String :=
       | _ => none
     let (_, outs) := (ops.splitOn ";").foldl (fun (acc : Impl.Store × List String) o =>
       match o.splitOn "," with
-      | ["W", v, b] =>
-        if Impl.isSecureBootVar v && (Impl.readDb (unhex b)).isNone then (acc.1, "bad-value" :: acc.2)
-        else (acc.1.writeVar v (unhex b), "ok" :: acc.2)
-      | ["S", v, b] =>
-        if Impl.isSecureBootVar v && (Impl.readDb (unhex b)).isNone then (acc.1, "bad-value" :: acc.2)
-        else (acc.1.writeSigned v dummyDesc (unhex b), "ok" :: acc.2)
+      | ["W", v, b] => (acc.1.writeVar v (unhex b), "ok" :: acc.2)
+      | ["S", v, b] => (acc.1.writeSigned v dummyDesc (unhex b), "ok" :: acc.2)
       | ["G", v, _] =>
-        (acc.1, (match acc.1.read v with | .ok b => "ok " ++ hex b | _ => "err") :: acc.2)
+        -- typed read; a value the decoder does not handle is still there as bytes ("raw")
+        (acc.1, (match acc.1.read v with
+          | .ok b => "ok " ++ hex b
+          | _ => (match acc.1.get v with | some b => "raw " ++ hex b | none => "err")) :: acc.2)
       | _ => (acc.1, "bad-op" :: acc.2)) (s0, [])
     some ("/".intercalate outs.reverse)
   | _, _ => none
